@@ -13,6 +13,7 @@ import (
 // ---- C02: steps are gated --------------------------------------------------------------------------------------
 
 type c02state struct {
+	nextByUser   bool // the persisted nextStepIndex was last changed by the user (a pending jump request)
 	epoch        string
 	step         int
 	upgradeOK    map[int]string // step -> "" (ok) or reason why the evidence is missing
@@ -52,6 +53,7 @@ func (s *Set) c02(w *simapi.Write, v *simapi.View) {
 				}
 				if simapi.IntD(bs, "nextStepIndex", 0) != simapi.IntD(as, "nextStepIndex", 0) {
 					st.userRequest = true
+					st.nextByUser = true
 				}
 			}
 		case w.Key.Kind == "Rollout" && w.Before != nil && w.After != nil && specOf(w.Before) != specOf(w.After):
@@ -139,6 +141,12 @@ func (s *Set) c02(w *simapi.Write, v *simapi.View) {
 	}
 	kb, ka := int(simapi.IntD(bs, "currentStepIndex", 0)), int(simapi.IntD(as, "currentStepIndex", 0))
 	sb, sa := simapi.Str(bs, "currentStepState"), simapi.Str(as, "currentStepState")
+	// provenance of the persisted nextStepIndex: a value the controller itself wrote is not a user's jump request
+	nextChangedByCtrl := simapi.IntD(bs, "nextStepIndex", 0) != simapi.IntD(as, "nextStepIndex", 0)
+	wasByUser := st.nextByUser
+	if nextChangedByCtrl {
+		st.nextByUser = false
+	}
 	rolling := simapi.Str(w.After, "status.phase") == "Progressing" && reasonB == "InRolling" && (reasonA == "InRolling" || reasonA == "Finalising")
 	if !rolling {
 		return
@@ -179,9 +187,10 @@ func (s *Set) c02(w *simapi.Write, v *simapi.View) {
 	if kb >= nsteps {
 		natural = -1
 	}
-	if nb := simapi.IntD(bs, "nextStepIndex", 0); nb > 0 && nb != natural {
+	if nb := simapi.IntD(bs, "nextStepIndex", 0); nb > 0 && nb != natural && wasByUser {
 		st.userRequest = true
 	}
+	st.nextByUser = false
 	defer func() { st.userRequest = false }()
 	if st.userRequest && !normal {
 		s.addSet("c02_discharges", "user-request")
@@ -433,13 +442,25 @@ func (s *Set) c05() {
 	}
 	// one specific history gets its own fingerprint: the Rollout was deleted / disabled after the webhook had held the
 	// workload back but before the BatchRelease existed, so nobody resumes the workload
-	if (exit == "delete" || exit == "disable") && !s.brCreatedSinceRelease {
-		held := simapi.Bool(wl, "spec.paused") || fmt.Sprint(simapi.Path(wl, "spec.updateStrategy.partition")) == "100%" || simapi.Bool(wl, "spec.updateStrategy.paused")
+	if exit == "delete" || exit == "disable" || exit == "rollback" {
+		cls := ""
+		switch {
+		case !s.brCreatedSinceRelease:
+			cls = "before-batchrelease-created"
+		case s.brAtExit == "none" || s.brAtExit == "deleting":
+			// the BatchRelease of the release had already been told to go (supersession reset) when the user's exit arrived
+			cls = "while-batchrelease-being-removed"
+		}
+		verb := map[string]string{"delete": "deleted", "disable": "disabled", "rollback": "rolled-back"}[exit]
+		held := simapi.Bool(wl, "spec.paused") || simapi.Bool(wl, "spec.updateStrategy.paused")
+		if p := simapi.Path(wl, "spec.updateStrategy.partition"); p != nil && fmt.Sprint(p) != "0" && fmt.Sprint(p) != "0%" {
+			held = true
+		}
 		if p, ok := simapi.Int(wl, "spec.updateStrategy.rollingUpdate.partition"); ok && p > 0 {
 			held = true
 		}
-		if held {
-			s.violate("C05", "c05:workload-left-held:rollout-"+exit+"d-before-batchrelease-created", fmt.Sprintf("the Rollout was %sd after the webhook held the workload back but before a BatchRelease was created: the workload stays held (paused=%v partition=%v) and never reaches the user's revision", exit, simapi.Bool(wl, "spec.paused"), simapi.Path(wl, "spec.updateStrategy.partition")), nil, s.Projection(v))
+		if cls != "" && held {
+			s.violate("C05", "c05:workload-left-held:rollout-"+verb+"-"+cls, fmt.Sprintf("the Rollout was %s when no live BatchRelease existed (%s): nobody resumes the workload, it stays held (paused=%v partition=%v) and never reaches the user's revision", verb, cls, simapi.Bool(wl, "spec.paused"), simapi.Path(wl, "spec.updateStrategy.partition")), nil, s.Projection(v))
 			return
 		}
 	}
